@@ -18,7 +18,7 @@ Sg == [kind |-> "sym", name |-> "k", alg |-> 0 - 7, fault |-> ""]
 Vf == [kind |-> "sym", name |-> "k", alg |-> 0 - 7, fault |-> ""]
 Bytes(n) == [i \in 1..n |-> (i * 3) % 256]
 HashSize(alg) == CASE alg = 0 - 16 -> 32 [] alg = 0 - 43 -> 48 [] alg = 0 - 44 -> 64 [] OTHER -> 0
-HashAlgs == {0 - 16, 0 - 43, 0 - 44, 99, 0 - 7}
+HashAlgs == {0 - 16, 0 - 43, 0 - 44, 99, 0 - 7, 0}     \* 0: the reserved id, an unknown hash like any other
 HashLens(alg) == IF HashSize(alg) = 0 THEN {0, 5} ELSE {0, HashSize(alg) - 1, HashSize(alg), HashSize(alg) + 1}
 Absent == [t |-> "absent"]
 Pcts == { Absent, GoInt("uint16", 50), GoInt("int", 0), GoStr(<<97, 47, 98>>), GoNeg("int64", 0), GoBytes(<<1>>), GoStr(<<>>), [t |-> "simple", v |-> 16] }
@@ -57,8 +57,8 @@ PickProdBase == st.phase = 0 /\ \E t \in Spellings : \E pe \in BaseEntries(t) \c
 PickProdRest == st.phase = 1 /\ st.side = "producer" /\
    \/ \E alg \in HashAlgs : \E n \in HashLens(alg) : \E pct \in Pcts : \E loc \in Locs :
         (st.P = <<>> /\ st.U = <<>>) /\ st' = [st EXCEPT !.phase = 2] @@ [hp |-> Hp(alg, n, pct, loc), rawP |-> <<>>, rawU |-> <<>>]
-   \/ \E alg \in {0 - 16, 99} : \E pct \in {Absent, GoInt("uint16", 50)} : \E loc \in Locs : \E rp \in RawP : \E ru \in RawU :
-        st' = [st EXCEPT !.phase = 2] @@ [hp |-> Hp(alg, 32, pct, loc), rawP |-> rp, rawU |-> ru]
+   \/ \E alg \in {0 - 16, 99, 0} : \E pct \in {Absent, GoInt("uint16", 50)} : \E loc \in Locs : \E rp \in RawP : \E ru \in RawU : \E n \in {32, 5} :
+        (n = 32 \/ (rp = <<>> /\ ru = <<>>)) /\ st' = [st EXCEPT !.phase = 2] @@ [hp |-> Hp(alg, n, pct, loc), rawP |-> rp, rawU |-> ru]
 PickCons == st.phase = 0 /\ \E a \in Opt(V258) : \E b \in Opt(V259) : \E c \in Opt(V260) : \E ct \in Opt({GoInt("int64", 0)}) :
                \E u \in {<<>>} \cup {Entry(258, AlgT(15)), Entry(259, GoInt("int64", 1)), Entry(260, GoStr(<<122>>)), Entry(3, GoInt("int64", 0)), Entry(4, GoBytes(<<1>>))} :
                \E n \in {32, 31, 48, 0} :
